@@ -33,6 +33,7 @@ type Case struct {
 	Sizes         []int  `json:"sizes"`
 	DataWithEOF   bool   `json:"data_with_eof"`
 	Drain         []int  `json:"drain"`
+	ZeroEvery     int    `json:"zero_every,omitempty"` // every n-th source read returns (0, nil)
 	Loader        string `json:"loader"`
 	// Std > 0: the source is a *bytes.Reader (seekable, WriterTo, ReaderAt) holding Std-1 unrelated bytes in
 	// front of the input and already advanced past them, as when an image is embedded in a container
@@ -93,6 +94,42 @@ func drain(r io.Reader, sizes []int, limit int) (out []byte, err error, stalled 
 	zero := 0
 	for i := 0; ; i++ {
 		k := sizes[i%len(sizes)]
+		if k == 0 {
+			// a zero-length read (allowed by io.Reader: it returns 0 and must not disturb the stream); a list of
+			// zeros only would never finish, so every second pass over an all-zero list reads one byte
+			var n int
+			var e error
+			if i%2 == 0 {
+				n, e = r.Read(buf[:0])
+			} else {
+				n, e = r.Read(nil)
+			}
+			if n != 0 {
+				return out, fmt.Errorf("zero-length Read returned n=%d", n), false
+			}
+			if e == io.EOF {
+				return out, nil, false // the stream says it has ended; the byte comparison decides whether it had
+			}
+			if e != nil {
+				return out, e, false
+			}
+			if i > 4*(limit+100) {
+				return out, nil, true
+			}
+			if e == nil && i%len(sizes) == len(sizes)-1 {
+				allZero := true
+				for _, z := range sizes {
+					allZero = allZero && z == 0
+				}
+				if allZero {
+					k = 1
+				} else {
+					continue
+				}
+			} else {
+				continue
+			}
+		}
 		if k < 1 {
 			k = 1
 		}
@@ -124,7 +161,7 @@ func drain(r io.Reader, sizes []int, limit int) (out []byte, err error, stalled 
 // check returns kind/what and whether the case is non-trivial (fault before Load returned, or
 // a short-reading source, or truncation strictly inside a structure - the caller knows the latter).
 func check(c Case) (kind, what string, nt bool) {
-	s := &src.Source{Data: c.Data, FaultAt: c.FaultAt, FaultWithData: c.FaultWithData, FaultErr: c.FaultErr, Sizes: c.Sizes, DataWithEOF: c.DataWithEOF}
+	s := &src.Source{Data: c.Data, FaultAt: c.FaultAt, FaultWithData: c.FaultWithData, FaultErr: c.FaultErr, Sizes: c.Sizes, DataWithEOF: c.DataWithEOF, ZeroEvery: c.ZeroEvery}
 	var o ld.Outcome
 	if c.Std > 0 {
 		r, remaining, cleanup := stdSource(c.StdKind, c.Std-1, c.Data)
@@ -198,7 +235,7 @@ func firstDiff(a, b []byte) int {
 }
 
 var schedules = [][]int{nil, {1}, {7}, {4096}, {3, 1, 4097, 2, 64, 5}}
-var drains = [][]int{{32768}, {1}, {5, 1, 300}, {4096}, {-1}, {-2}, {-3}, {-4}}
+var drains = [][]int{{32768}, {1}, {5, 1, 300}, {4096}, {-1}, {-2}, {-3}, {-4}, {0, 7}, {3, 0, 0, 4096}}
 
 type input struct {
 	name string
@@ -256,7 +293,7 @@ func TestC07(t *testing.T) {
 		fmt.Println("REPLAY case passed")
 		return
 	}
-	ev.Rule("seeds: the repository's test images and profile, grammar-built valid files of all three formats with and without ICC, corrupted variants (field set to hostile value, chunk dropped/duplicated, type changed), empty input, random bytes, signature-only prefixes. For every seed <= 8 KiB EVERY prefix length is used as truncation point and EVERY byte position as sticky-fault position (error alone, and error together with the preceding data); for larger seeds every structural boundary +-1, every multiple of 4096 +-1 and (stride 7 quick / 1 thorough) the first 12 KiB. Source schedules: all-at-once, 1, 7, 4096, mixed list (one per position by hash in quick, all in thorough); the returned stream is drained with read sizes 32768 / 1 / mixed / 4096; four loaders; plus rapid-generated files with rapid schedules. non-trivial = distinct case whose truncation lies strictly inside a structure, or whose fault position had been reached before Load returned, or whose source delivers short reads")
+	ev.Rule("seeds: the repository's test images and profile, grammar-built valid files of all three formats with and without ICC, corrupted variants (field set to hostile value, chunk dropped/duplicated, type changed), empty input, random bytes, signature-only prefixes. For every seed <= 8 KiB EVERY prefix length is used as truncation point and EVERY byte position as sticky-fault position (error alone, and error together with the preceding data); for larger seeds every structural boundary +-1, every multiple of 4096 +-1 and (stride 7 quick / 1 thorough) the first 12 KiB. Source schedules: all-at-once, 1, 7, 4096, mixed list, some with every 2nd/3rd read returning (0, nil) (one per position by hash in quick, all in thorough); the returned stream is drained with read sizes 32768 / 1 / mixed / 4096, with zero-length reads in between, and through io.Copy / io.ReadAll / bufio.WriteTo / ReadByte; four loaders; plus rapid-generated files with rapid schedules. non-trivial = distinct case whose truncation lies strictly inside a structure, or whose fault position had been reached before Load returned, or whose source delivers short reads")
 	ev.Assume("faults are sticky (a failed source keeps failing); sources never return (0, nil)")
 	var inputs []input
 	stride := ev.Pick(7, 1)
@@ -337,7 +374,7 @@ func TestC07(t *testing.T) {
 							run(Case{Seed: in.name, Data: in.data[:p], FaultAt: -1, Drain: dr, Loader: loader, Std: 1 + int(h/4%3)*27, StdKind: stdKinds[int(h/12)%len(stdKinds)]}, in.in[p])
 						}
 						// truncation at p
-						run(Case{Seed: in.name, Data: in.data[:p], FaultAt: -1, Sizes: sc, DataWithEOF: h%3 == 0, Drain: dr, Loader: loader, Seekable: h%5 == 1}, in.in[p])
+						run(Case{Seed: in.name, Data: in.data[:p], FaultAt: -1, Sizes: sc, DataWithEOF: h%3 == 0, Drain: dr, Loader: loader, Seekable: h%5 == 1, ZeroEvery: []int{0, 0, 0, 2, 3}[h/11%5]}, in.in[p])
 						// sticky fault at p
 						if p <= len(in.data) {
 							run(Case{Seed: in.name, Data: in.data, FaultAt: int64(p), FaultWithData: h%2 == 0, FaultErr: src.FaultErrNames[int(h/5)%len(src.FaultErrNames)], Sizes: sc, Drain: dr, Loader: loader}, false)
@@ -433,11 +470,14 @@ func TestC07(t *testing.T) {
 			c.StdKind = rapid.SampledFrom(stdKinds).Draw(rt, "stdkind")
 		}
 		c.DataWithEOF = rapid.Bool().Draw(rt, "dataeof")
-		c.Drain = rapid.SliceOfN(rapid.SampledFrom([]int{1, 2, 3, 100, 4096, 32768}), 1, 4).Draw(rt, "drain")
+		c.Drain = rapid.SliceOfN(rapid.SampledFrom([]int{1, 2, 3, 100, 4096, 32768, 0}), 1, 4).Draw(rt, "drain")
 		if rapid.IntRange(0, 2).Draw(rt, "stddrain") == 0 {
 			c.Drain = []int{rapid.IntRange(-4, -1).Draw(rt, "drainmode")}
 		}
 		c.Seekable = c.Std == 0 && rapid.IntRange(0, 3).Draw(rt, "seekable") == 0
+		if c.Std == 0 && rapid.IntRange(0, 4).Draw(rt, "zeroreads") == 0 {
+			c.ZeroEvery = rapid.SampledFrom([]int{2, 3, 7}).Draw(rt, "zeroevery")
+		}
 		ev.Eval(1)
 		// deferred drain: a quarter of the cases first run ANOTHER load (of the previous case's input) between
 		// this load and the reading of its stream - streams handed out earlier must not be disturbed
